@@ -190,6 +190,7 @@ class World:
         self.endpoints = {}     # (ip, port) -> callback(world, dg)
         self.next_port = 40000
         self.dump_users = False
+        self.dump_clients = False   # record the tunnel state of a client after each of its steps (CliState events)
         self.last_users = None
         self.one_fd = False
         self.step_hook = None   # callback(world, inst_name, events) after every step
@@ -295,6 +296,10 @@ class World:
                 raise RuntimeError("kernel error: %r" % (e,))
         if self.dump_users and inst.kind == "S":
             self.users_event()
+        if self.dump_clients and inst.kind != "S" and inst.state != "dead":
+            for e in self.k.cmd("cstate %d" % int(inst.kind[1])):
+                if e[0] == "cstate":
+                    self.ev(ev="CliState", inst=inst.name, st=json.loads(" ".join(e[1:])))
         if self.step_hook:
             self.step_hook(self, inst.name, evs)
 
